@@ -260,6 +260,23 @@ theorem register_twice_without_second_check :
     have : i = 0 ∨ i = 1 := by omega
     rcases this with rfl | rfl <;> simp [Register.done, Register.upd, u]
 
+/-! ## 3b. Lists handed out by the store are snapshots -/
+
+/-- (T) `Store.DBs` returns a copy of the registry (`slices.Clone(s.dbs)`), and no exported accessor of
+    Store / DB / Replica / Compactor hands out one of the receiver's own slices or maps uncopied — the
+    assumption under which the lock paths of the consumers (which walk the result without `Store.mu`) are
+    complete. -/
+theorem gen_accessors_return_copies :
+    Gen.Locks.storeDBsReturn = storeDBsSnapshotExpr ∧ Gen.Locks.sharedContainerReturns = [] := by decide
+
+/-- why it matters: with an aliased list a concurrent in-place delete makes the consumer skip an entry and
+    meet a nil one; with a copy it sees exactly what it took. -/
+theorem aliased_list_changes_underfoot :
+    consumerSees true [some 0, some 1, some 2] 0 = [some 1, some 2, none] ∧
+    consumerSees false [some 0, some 1, some 2] 0 = [some 0, some 1, some 2] := by decide
+
+theorem copied_list_is_stable (view : List (Option Nat)) (i : Nat) : consumerSees false view i = view := rfl
+
 /-! ## 4. Close (db.go: DB.Close) -/
 
 set_option maxRecDepth 200000 in
